@@ -40,7 +40,8 @@ Inductive bslot :=
 | BPending (asset : bool).
 
 (* ---------- world ---------- *)
-Inductive sclass := SUrl | SNode | SBad.        (* parse_load_specifier_kind *)
+Inductive sclass := SUrl | SNode | SBad | SPass.  (* parse_load_specifier_kind; SPass: a valid jsr: specifier when
+                                                      jsr specifiers are passed through (marked external at once) *)
 
 Record wmod := {
   wm_hash_raw : N;                  (* SHA-256 of the bytes the loader serves (interned) *)
@@ -189,6 +190,7 @@ Definition load (W : world) (o : bopts) (st : bstate) (spec0 : spec) (range : op
     let proceed :=
       match class_of W s with
       | SNode => (set_slot st s (BMod (node_module s))) <| st_has_node := true |>
+      | SPass => set_slot st s (BExternal false)
       | SBad => set_slot st s (BErr (BBadSpecifier s range))
       | SUrl => queue_load st s range asset in_dyn root attr count
       end in
